@@ -118,6 +118,12 @@ def implied(test, pol):
     """Facts implied by ``test`` evaluating to ``pol``."""
     out = []
     test = _desugar_in(test)
+    if isinstance(test, ast.Compare) and len(test.ops) > 1 and all(isinstance(x, (ast.Name, ast.Constant, ast.Attribute)) or
+                                                                    (isinstance(x, ast.UnaryOp) and isinstance(x.operand, ast.Constant)) for x in test.comparators[:-1]):
+        # a < b < c with plain middle operands (evaluated once either way) is `a < b and b < c`
+        ops = [test.left] + list(test.comparators)
+        parts = [ast.copy_location(ast.Compare(left=ops[i], ops=[test.ops[i]], comparators=[ops[i + 1]]), test) for i in range(len(test.ops))]
+        return implied(ast.copy_location(ast.BoolOp(op=ast.And(), values=parts), test), pol)
     if isinstance(test, ast.UnaryOp) and isinstance(test.op, ast.Not):
         return implied(test.operand, not pol)
     if isinstance(test, ast.BoolOp):
